@@ -171,16 +171,22 @@ Ltac len :=
   | _ => congruence
   end.
 
+Lemma lev_ext L1 L2 c cap om xs a_std a_bic avgE energy unit :
+  lev_agree L1 L2 c -> length a_std = l_life c -> length a_bic = l_life c -> length energy = l_life c ->
+  lev L1 c cap om xs a_std a_bic avgE energy unit == lev L2 c cap om xs a_std a_bic avgE energy unit.
+Proof.
+  intros (Hsn & Hsd & Hbn & Hbd) H1 H2 H3. unfold lev.
+  destruct (Z.eqb (l_econ c) 1); [reflexivity|]. destruct (Z.eqb (l_econ c) 2).
+  - now rewrite (Hsn _ _ H1), (Hsd _ H3).
+  - now rewrite (Hbn _ _ H2), (Hbd _ H3).
+Qed.
+
 Lemma lcoe_gen_ext L1 L2 c : wf_l c -> lev_agree L1 L2 c -> teq (lcoe_gen L1 c) (lcoe_gen L2 c).
 Proof.
-  intros Hwf (Hsn & Hsd & Hbn & Hbd). unfold lcoe_gen, wf_l in *. cbv zeta.
-  destruct (Z.eqb (l_econ c) 1); [|destruct (Z.eqb (l_econ c) 2)];
-    destruct (classify (l_enduse c) (l_plant c)); try (apply teq_mk; reflexivity);
+  intros Hwf Hag. unfold lcoe_gen, wf_l in *. cbv zeta.
+  destruct (classify (l_enduse c) (l_plant c)); try (apply teq_mk; reflexivity);
     repeat match goal with H : _ /\ _ |- _ => destruct H end;
-    apply teq_mk; try reflexivity;
-    repeat first
-      [ rewrite (Hsn _ _) by len | rewrite (Hsd _) by len | rewrite (Hbn _ _) by len | rewrite (Hbd _) by len ];
-    reflexivity.
+    apply teq_mk; try reflexivity; apply lev_ext; try assumption; len.
 Qed.
 
 Lemma vec_spec_agree c : lev_agree vec_levelizers spec_levelizers c.
@@ -234,23 +240,23 @@ Proof. rewrite geo0_sigma_from, qpow_1. reflexivity. Qed.
 (* ---------- the formulas written out per economic model (electricity end-use) ---------- *)
 Lemma spec_fcr_electricity c : l_econ c = 1%Z -> classify (l_enduse c) (l_plant c) = LElec ->
   lcoe_spec c = ((l_fcr c * (1 + l_inflc c) * l_ccap c + l_coam c + 0) / (sumQ (l_net c) / natQ (length (l_net c))) * e8, 0, 0).
-Proof. intros He Hk. unfold lcoe_spec, lcoe_gen. cbv zeta. rewrite He, Hk. reflexivity. Qed.
+Proof. intros He Hk. unfold lcoe_spec, lcoe_gen, lev. cbv zeta. rewrite He, Hk. reflexivity. Qed.
 
 Lemma spec_std_electricity c : l_econ c = 2%Z -> classify (l_enduse c) (l_plant c) = LElec ->
   lcoe_spec c = (((1 + l_inflc c) * l_ccap c + geo0 (/ (1 + l_disc c)) (repeat (l_coam c) (l_life c)))
                  / geo0 (/ (1 + l_disc c)) (l_net c) * e8, 0, 0).
-Proof. intros He Hk. unfold lcoe_spec, lcoe_gen. cbv zeta. rewrite He, Hk. reflexivity. Qed.
+Proof. intros He Hk. unfold lcoe_spec, lcoe_gen, lev. cbv zeta. rewrite He, Hk. reflexivity. Qed.
 
 Lemma spec_std_heat c : l_econ c = 2%Z -> classify (l_enduse c) (l_plant c) = LHeat ->
   lcoe_spec c = (0, ((1 + l_inflc c) * l_ccap c
                      + geo0 (/ (1 + l_disc c)) (map (Qplus (l_coam c)) (map (Qmult (l_elec_buy c / e6)) (l_pump c))))
-                    / geo0 (/ (1 + l_disc c)) (l_heat c) * e8 * mmbtu, 0).
-Proof. intros He Hk. unfold lcoe_spec, lcoe_gen. cbv zeta. rewrite He, Hk. reflexivity. Qed.
+                    / geo0 (/ (1 + l_disc c)) (l_heat c) * (e8 * mmbtu), 0).
+Proof. intros He Hk. unfold lcoe_spec, lcoe_gen, lev. cbv zeta. rewrite He, Hk. reflexivity. Qed.
 
 Lemma spec_bicycle_electricity c : l_econ c <> 1%Z -> l_econ c <> 2%Z -> classify (l_enduse c) (l_plant c) = LElec ->
   lcoe_spec c = (bic_num_spec c (l_ccap c) (repeat (l_coam c) (l_life c)) / geo1 (bic_qg c) (l_net c) * e8, 0, 0).
 Proof.
-  intros H1 H2 Hk. unfold lcoe_spec, lcoe_gen. cbv zeta.
+  intros H1 H2 Hk. unfold lcoe_spec, lcoe_gen, lev. cbv zeta.
   apply Z.eqb_neq in H1. apply Z.eqb_neq in H2. rewrite H1, H2, Hk. reflexivity.
 Qed.
 
